@@ -5,7 +5,8 @@
     Boolean side condition `clip_spec_ok` / `getitem_ok`; here the side condition is discharged on
     the generated description by computation and the theorems are instantiated. *)
 From Coq Require Import ZArith List Bool Permutation Sorted.
-From Bermuda Require Import Model.Base Lib.Calendar Model.Select Proofs.SelectP.
+From Bermuda Require Import Model.Base Model.Order Proofs.OrderP Proofs.TriangleP.
+From Bermuda Require Import Lib.Calendar Model.Select Proofs.SelectP Proofs.SelectCanon.
 From Gen Require Import GenPred.
 Import ListNotations.
 Local Open Scope Z_scope.
@@ -13,6 +14,9 @@ Local Open Scope Z_scope.
 Theorem C11_generated_clip_description_ok : clip_spec_ok gen_clip = true.
 Proof. vm_compute. reflexivity. Qed.
 Theorem C11_generated_getitem_description_ok : getitem_ok gen_getitem = true.
+Proof. vm_compute. reflexivity. Qed.
+
+Theorem C11_generated_slice_getitem_description_ok : getitem_ok gen_getitem_slice = true.
 Proof. vm_compute. reflexivity. Qed.
 
 (* clip = filter by the conjunction of the inclusive bounds; the result keeps the input order *)
@@ -41,6 +45,20 @@ Theorem C11_clip_result_is_sorted : forall (R : cell -> cell -> Prop) a t,
   StronglySorted R t -> StronglySorted R (clip gen_clip a t).
 Proof. intros R a t. apply sublist_StronglySorted. apply clip_sublist. Qed.
 Print Assumptions C11_clip_result_is_sorted.
+
+(* ... and it is what `Triangle(list(cells))` at the end of clip returns (C01's constructor) *)
+Theorem C11_clip_result_is_a_fixed_point_of_the_constructor : forall a t,
+  canonical t -> mk_triangle (clip gen_clip a t) = Ok (clip gen_clip a t).
+Proof. intros a t. apply clip_constructor. Qed.
+Print Assumptions C11_clip_result_is_a_fixed_point_of_the_constructor.
+
+(* lag bounds in days: the int n and datetime.timedelta(days=n) denote the day count n; the model's
+   scaled comparison is the comparison of day counts *)
+Theorem C11_day_and_timedelta_lag_bounds_compare_day_counts : forall f1 f2 lo hi t c,
+  In c (clip gen_clip (mkClip None None None None (Some (Num f1 (1024 * lo))) (Some (Num f2 (1024 * hi))) UDay) t)
+  <-> In c t /\ lo <= ev c - pe c <= hi.
+Proof. intros. apply day_bounds_compare_day_counts. exact C11_generated_clip_description_ok. Qed.
+Print Assumptions C11_day_and_timedelta_lag_bounds_compare_day_counts.
 
 (* complementary clips partition what the other bounds leave *)
 Theorem C11_complementary_evaluation_clips_partition : forall a t d,
@@ -83,6 +101,27 @@ Proof.
   - reflexivity.
 Qed.
 Print Assumptions C11_index_by_period_evaluation_metadata.
+
+(* TriangleSlice[period, evaluation]: the same filter without a metadata component *)
+Theorem C11_triangle_slice_index_by_period_evaluation : forall t p e,
+  Forall (fun c => DATE_MIN <= ps c <= DATE_MAX) t ->
+  (forall pb eb, pidx_bounds p = Ok pb -> pidx_bounds e = Ok eb ->
+     slice_getitem gen_getitem_slice gen_clip (I2Pair p e) t =
+     let r := filter (getitem_filter pb eb MNoneIdx) t in
+     if is_slice_p p || is_slice_p e then Ok (GTri r)
+     else match r with c :: _ => Ok (GCell c) | [] => Err IndexError end)
+  /\ ((p = PBad \/ e = PBad) -> slice_getitem gen_getitem_slice gen_clip (I2Pair p e) t = Err ValueError)
+  /\ slice_getitem gen_getitem_slice gen_clip I2BadArity t = Err ValueError.
+Proof.
+  intros t p e Hd. split; [| split].
+  - intros pb eb Hp He. cbn [slice_getitem].
+    rewrite (getitem_triple gen_getitem_slice gen_clip t p e MNoneIdx pb eb
+               C11_generated_slice_getitem_description_ok C11_generated_clip_description_ok Hd Hp He).
+    cbv zeta. rewrite Bool.orb_false_r. reflexivity.
+  - intro H. cbn [slice_getitem]. now apply getitem_triple_bad.
+  - reflexivity.
+Qed.
+Print Assumptions C11_triangle_slice_index_by_period_evaluation.
 
 (* non-vacuity: a 5-cell, 2-slice triangle; bounds equal to existing dates keep those cells *)
 Definition m1 : meta := default_meta.
